@@ -38,8 +38,17 @@ LEVEL_TEXT = ("Lean 4 theorems about the executable models: per solver (Props/C2
               "the decision model against the real null_space/GeneralParameters driven by a scripted solver, by "
               "differential runs of gama-local over the four algorithms on planted deficiencies, and by an exact rational "
               "rank oracle on what gama-local removed / reported.")
-LEVEL_NOTE = ("project_equations (revision, linearisation, singular_coords) is a parameter of the decision model "
-              "(instantiated by the model of project_equations in Props/C01/ProjectEquations.lean: C20_world_of_project_equations); "
+LEVEL_NOTE = ("project_equations (revision, linearisation, singular_coords) is a parameter of the decision model; since round 7 it is "
+              "instantiated by the EXECUTED models (Props/C20/ProjectEquations.lean): PE.peWorld = the model of project_equations() run by "
+              "drv_pe, the solver object read off netSolve (Model/Ls/ObsNet.lean: obsNet, netLindep; C20_obsNet_reads_netSolve, C20_obsNet_sound) - "
+              "C20_adjusted_sound_of_project_equations, C20_named_unknowns_dependent_of_project_equations, "
+              "C20_reported_excludes_removed_of_project_equations for env/chol/gso and the verdict theorem for svd "
+              "(C20_adjusted_sound_svd_of_project_equations), general covariance, no abstract pe; hdim is derived (C20_peWorld_dim, premise "
+              "DirFromStation = a stand-point's directions start at its station), hstill is derived where singular_coords does not fire and "
+              "proved false otherwise (C20_peWorld_still / C20_peWorld_not_still); what remains is WorldHyp: on every configuration the loop "
+              "can visit NoAlias, m0 != 0, covariance invertible and the algorithm's first- and second-stage unambiguity (not yet one "
+              "input-side hypothesis; conclusions witnessed by kernel evaluation over Q only; the composed world is run by no driver). "
+              "The older theorems keep an abstract pe: "
               "the world hypotheses WF / RefusalFlags / RefusalFirst and the verdict theorem C20_adjusted_sound are THEOREMS for "
               "worlds built from the solver models gso, cholesky (Props/C20/World.lean), envelope and svd "
               "(Props/C20/WorldEnv.lean, WorldGap.lean: second-stage premises from one exact gap hypothesis); per-solver "
@@ -51,12 +60,12 @@ LEVEL_NOTE = ("project_equations (revision, linearisation, singular_coords) is a
               "tests is exactly 0 or above its tolerance; the envelope's absolute sqrt(eps) pivot tolerance on free networks "
               "is known finding F22 (C19-envelope-defect-undercount in gama-g3). The "
               "end-to-end statement 'the removed points are exactly the indeterminate ones' is checked by the rank oracle, "
-              "not proved.")
+              "not proved (proved under WorldHyp: what null_space names on each configuration is dependent and its number is the defect).")
 TECHNIQUE = "Lean 4 proof (structural induction over the removal recursion, decreasing measure) + model/implementation correspondence + differential runs"
 TRUSTED = ["scripted solver in harness/c02_netdecision.cpp replaces LocalNetwork::least_squares (test double, real LocalNetwork code)",
            "python Jacobian of distances/directions/height differences in tools/props/c20.py (exact rationals)",
            "tools/lib/exact_verdict.py + gen_ls.reference: decide ls cases whose x / q_xx answers miss the fixed 1e-9 comparison on a demonstrably ill-conditioned problem (both sides against the exact solution; capped, counted)"]
-MODELLED = ["IEEE rounding", "project_equations / singular_coords (abstract world of NetDecision)", "text/XML printing"]
+MODELLED = ["IEEE rounding", "project_equations / singular_coords: a parameter ('world') of NetDecision, instantiated in the theorems by the executed model PE.peWorld + obsNet; the nd correspondence stream drives the real null_space/GeneralParameters with a scripted table-driven world; revision_points not modelled", "text/XML printing"]
 ASSUMPTIONS = ["rank numerically unambiguous: jittered-grid geometry, planted deficiencies are exact"]
 
 ALGS = c02.ALGS
